@@ -14,7 +14,7 @@ media, settings, triggers, type-table hints):
           the first dump (dump, load, dump), (b) XForm equal to the original's.
   Oracle = text equality of XForms / equality of dicts; a difference is broken down by c16_obs.diff_items
   into one failure per lost/changed node, which the matchers triage into the known loss shapes
-  (F39: osm dump crash; F40/F41: add_none_option) — anything else is a VIOLATION.
+  (F39: osm dump crash; F47: search() select dumped after to_xml()) — anything else is a VIOLATION.
   Correspondence: Lean `JV.print` = `json.dumps` and Lean `JV.parse` = `json.loads` on the `_pyxform` dict and
   on the survey dump of every case, and on adversarial values/texts; Lean `ToJson.toJson` = `to_json_dict` on
   the element trees of the generated surveys.
@@ -182,6 +182,12 @@ def run_paths(form: dict) -> dict:
                       {"exc": type(e).__name__, "arg": str(e), "site": site_of(e)}))
             return out
         try:
+            j3 = s3.to_json_dict()
+            if j3 != jb:
+                P.append(("p3-dump-unstable", "dump taken after to_xml(): dump, load, dump again gives a different dict: "
+                          + dict_diff(jb, j3), None))
+            elif json.dumps(j3) != json.dumps(jb):
+                P.append(("p3-dump-unstable", "dump taken after to_xml(): dump, load, dump again gives a different text", None))
             x3 = to_xml(s3)
             if x3 != x0:
                 P.append(("p3-xform", "XForm of the survey reloaded from the dump taken after to_xml() differs",
@@ -337,52 +343,6 @@ def classify_item(item, obs) -> tuple[str, dict]:
 # ---- matchers: one per loss shape (input shape + code site), see known_findings.d/C16.json
 
 
-NONE_CONSTRAINT = "(.='none' or not(selected(., 'none')))"
-
-
-def _none_setting(f: Failure) -> bool:
-    st = (f.case.get("form", {}).get("settings") or [{}])[0]
-    return str(st.get("add_none_option", "")).strip().lower() in ("yes", "true", "true()", "1")
-
-
-def _constraints(x):
-    def c(side):
-        if not side:
-            return None
-        return dict((k, v) for k, v in side[0]).get("constraint", "")
-    return c(x.get("before")), c(x.get("after"))
-
-
-def m_none_shared_list(f: Failure) -> bool:
-    """builder._add_none_option_to_select_all_that_apply (builder.py:166-180) appends the 'none' choice to the
-    list object it is given; xls2json shares one list object between all selects of a list, so in a direct
-    conversion only the first select_multiple of a list gets the none-constraint, while after a JSON text
-    round trip (separate list objects) every one gets it."""
-    x = f.extra
-    if f.kind not in ("p1-xform", "p2-xform") or x.get("item") != "bind" or not _none_setting(f):
-        return False
-    b, a = _constraints(x)
-    if b is None or a is None or NONE_CONSTRAINT in b:
-        return False
-    if a != (b + " and " + NONE_CONSTRAINT if b else NONE_CONSTRAINT):
-        return False
-    return x.get("earlier_select_all_same_list") is True
-
-
-def m_none_reapplied(f: Failure) -> bool:
-    """…and the setting add_none_option stays in the survey's dump together with the already extended
-    constraint, so every reload appends the none-constraint once more (builder.py:166-180)."""
-    x = f.extra
-    if not _none_setting(f):
-        return False
-    if f.kind == "p2-dump-unstable":
-        return ".bind.constraint:" in f.detail and f.detail.count(NONE_CONSTRAINT) >= 2
-    if f.kind != "p2-xform" or x.get("item") != "bind":
-        return False
-    b, a = _constraints(x)
-    return bool(b) and b.endswith(NONE_CONSTRAINT) and a == b + " and " + NONE_CONSTRAINT
-
-
 def m_osm_dump_crash(f: Failure) -> bool:
     """OSM_QUESTION_FIELDS is built from SELECT_QUESTION_EXTRA_FIELDS instead of OSM_QUESTION_EXTRA_FIELDS
     (question.py:66-67), so copy() asks an OsmUploadQuestion for a `choices` slot it does not have."""
@@ -391,6 +351,7 @@ def m_osm_dump_crash(f: Failure) -> bool:
         and f.detail.startswith("AttributeError") and "survey_element.py:__getitem__" in f.detail
         and any(str(r.get("type", "")).split(" ")[0] == "osm" for r in f.case["form"].get("survey", []))
     )
+
 
 
 def m_search_dump_after_xml(f: Failure) -> bool:
@@ -411,8 +372,6 @@ def _with_derived(fid, m):
 
 MATCHERS = {
     "F39-osm-question-dump-crash": m_osm_dump_crash,
-    "F40-add-none-option-shared-list": m_none_shared_list,
-    "F41-add-none-option-reapplied-on-reload": m_none_reapplied,
     "F47-search-select-dump-after-xml-not-reloadable": m_search_dump_after_xml,
 }
 MATCHERS = {k: _with_derived(k, v) for k, v in MATCHERS.items()}
@@ -447,6 +406,8 @@ def form_case(ctx, form, origin="gen", model=True):
         ctx.record(case, False)
         return obs
     feats = features_of(form)
+    if form.get("entities"):
+        feats.append("entities")
     for f in feats + form.get("_features", []):
         ctx.count("feature:" + f)
     if obs.get("p1_dict_identical") is False:
@@ -720,6 +681,16 @@ def directed_forms():
                                    "choices": [{"list_name": "r", "name": "n", "label": "N"},
                                                {"list_name": "l", "name": "a", "label": "A", "parent": "n", "extra_data": "e1"},
                                                {"list_name": "l", "name": "b", "label": "B", "parent": "n", "children": "c"}]}
+    # entity declarations: create / update / upsert, save_to (dumps are serialised to text on all three paths; the
+    # dump taken after to_xml() differs by the entities namespace and goes through path 3)
+    ent_rows = [{"type": "text", "name": "eid", "label": "I"}, {"type": "text", "name": "q", "label": "Q", "save_to": "p"},
+                {"type": "begin group", "name": "g", "label": "G"}, {"type": "integer", "name": "n", "label": "N", "save_to": "size"},
+                {"type": "end group"}]
+    yield "entity-create", {"survey": ent_rows, "entities": [{"dataset": "trees", "label": "concat(${q}, ' x')", "create_if": "${q} != ''"}]}
+    yield "entity-update", {"survey": ent_rows, "entities": [{"dataset": "trees", "entity_id": "${eid}"}],
+                            "settings": [{"namespaces": 'ex="http://example.org/ns"'}]}
+    yield "entity-upsert", {"survey": ent_rows, "entities": [{"dataset": "trees", "entity_id": "${eid}", "label": "${q}",
+                                                              "create_if": "${eid} = ''", "update_if": "${eid} != ''"}]}
     yield "group-appearance-only", {"survey": [{"type": "begin group", "name": "g", "label": "G", "appearance": "field-list"},
                                                {"type": "select_one l", "name": "s", "label": "S", "parameters": "randomize=true seed=3"},
                                                {"type": "end group"}], "choices": ch[1:]}
